@@ -530,6 +530,7 @@ def flat_programs(n):
     F.append(fam('flat-minarray-key', 'std.minArray(%s, function(x) -x)' % r, '%d' % n, flat=True))
     F.append(fam('flat-setunion-key', 'std.length(std.setUnion(%s, %s, function(x) x))' % (r, r), '%d' % n, flat=True))
     F.append(fam('flat-object-fields', 'std.length(std.objectFields({ ["k%%d" %% i]: i for i in %s }))' % r, '%d' % n, flat=True))
+    F.append(fam('flat-array-deep-value', 'std.makeArray(%d, function(i) [i])' % n, '[' + ', '.join('[%d]' % i for i in range(n)) + ']', flat=True))
     F.append(fam('flat-all', 'std.all(std.map(function(x) x > 0, %s))' % r, 'true', flat=True))
     return F
 
